@@ -302,9 +302,11 @@ Returns the verdict (if bad). -/
 def histStepP (before : PV) (op : Op) (res : String) (after : PV) : Option String :=
   match op with
   | .truncate n =>
-    -- documented: trailing items removed to fit the limit (no exception for a single string)
+    -- documented: trailing items removed to fit the limit; the kind of value stays, except that a
+    -- single string that loses its item becomes the empty value
     let want := before.items.take n
-    if after.items ≠ want ∨ pvKind after ≠ pvKind before then
+    let kindOk := pvKind after = pvKind before ∨ (pvKind before = "S" ∧ n = 0 ∧ after = .empty)
+    if after.items ≠ want ∨ ¬ kindOk then
       match before with
       | .str _ =>
         if n = 0 ∧ after = before then some "PROP-FAIL class=truncate-str-limit0 Str value keeps its item after truncate(0)"
